@@ -1099,6 +1099,7 @@ impl Engine for C03 {
             components_real: vec![
                 "chia_consensus::conditions::parse_spends (EmptyVisitor and MempoolVisitor)",
                 "OwnedSpendBundleConditions::from",
+                "chia_consensus::run_block_generator::run_block_generator2 and spendbundle_conditions::run_spendbundle (one bundle in eight: puzzles `1`, the conditions obtained by running a quoted generator / a spend bundle, checked at every chain state like the parse_spends result)",
                 "chia_consensus::check_time_locks::check_time_locks (nowrap = true)",
             ],
             components_stub: vec![
